@@ -67,7 +67,7 @@ PROPERTIES = {
         "explanation": "R-ARGS, R-GLOBAL, R-MEMO, R-TOKEN",
     },
     "C19": {
-        "rules": [rule_raise, rule_defassign, rule_regkey, rule_kwsig, rule_assert, CD.rule_codewidth, rule_loopstore, MB.rule_names, MB.rule_attr, MB.rule_dictkeys, rule_uniquefrom, rule_emptyidx, rule_fillnone, rule_aligned, rule_autorefuse],
+        "rules": [rule_raise, rule_defassign, rule_regkey, rule_kwsig, rule_assert, rule_cover, CD.rule_codewidth, rule_loopstore, MB.rule_names, MB.rule_attr, MB.rule_dictkeys, rule_uniquefrom, rule_emptyidx, rule_fillnone, rule_aligned, rule_autorefuse],
         "thorough": [selftest],
         "technique": "CFG definite-assignment with guard correlation; call-graph reachability of raises; keyword/signature agreement of "
                      "every resolved call and partial; assert triage table",
